@@ -48,8 +48,12 @@ def c16_d(ctx):
 
                 ebu = ExprBuilder(ctx.prog, f, user_stop=True)
                 win = simp(ebu.call(b, t)[3][0])
+                wins = [win]
+                if win[0] == "place" and re.match(r"^\w+$", win[1]):
+                    # the window was given a name (`let mut datagram = &buf[..n]`): every definition counts
+                    wins = [simp(d) for d in ebu.var_defs(win[1])] or [win]
                 bound = None
-                for x in walk(win):
+                for x in [y for w_ in wins for y in walk(w_)]:
                     if x[0] == "agg" and x[2].endswith(("ops::RangeTo", "ops::Range", "ops::RangeToInclusive")) and x[5]:
                         bound = x[5][-1]
                     elif x[0] == "call" and (callee_name(x) or "").split("::")[-1] in ("take", "split_at", "truncate") and len(x[3]) > 1:
